@@ -6,7 +6,7 @@ open R_stack
 let run () =
   let st = ref None in
   let ops = ref 0 and bad = ref 0 and lineno = ref 0 and fails = ref 0 and cachehits = ref 0 in
-  let srck = ref "" in
+  let srck = ref "" and init_args = ref None in
   let diverge msg line = incr bad; if !bad <= 12 then Printf.printf "DIVERGE line %d: %s :: %s\n" !lineno msg line in
   (try
      while true do
@@ -34,6 +34,7 @@ let run () =
             srck := src;
             let k = (match src with "grow" -> AGrow | "fixed" -> AFixed | _ -> AConst) in
             st := Some (ar_init k (cached = "cached") (zi (int_of_string bs)));
+            init_args := Some (k, (cached = "cached"), zi (int_of_string bs));
             if calls <> [] then diverge "constructor must not allocate" line
           | "arena" :: _, _ -> Printf.printf "NOTE constructor failed: %s\n" line
           | "ab" :: _, _ ->
@@ -62,6 +63,21 @@ let run () =
             (match calls with
              | [UA (sz, Some a); UF (a', sz')] when a = a' && sz = sz' -> ()
              | _ -> diverge "assigning into a moved-from arena and destroying it must acquire and return exactly the fresh arena's block" line)
+          | "mfb" :: _, "done" :: _ ->
+            (* move assignment from a busy arena: the model builds the other arena from the same upstream answers, the old
+               content of the target is returned as on destruction, and the target continues as the other arena *)
+            (match !st, !init_args with
+             | Some a, Some (k, cached, bs) ->
+               incr ops;
+               let answers = ref (List.filter_map (function UA (_, Some x) -> Some (zi x) | _ -> None) calls) in
+               let next_answer () = match !answers with x :: tl -> answers := tl; Some x | [] -> None in
+               let f = ref (ar_init k cached bs) and mc = ref [] in
+               let stepf o ans = let ((f', _), c) = astep !f o ans in f := f'; mc := !mc @ c in
+               stepf ABlock (next_answer ());
+               if !srck = "grow" then (stepf ABlock (next_answer ()); stepf ADealloc (Some (zi 0)));
+               if model_calls (!mc @ ar_destroy_calls a) <> calls then diverge "move assignment from a busy arena: the other arena's blocks are acquired, then the target's old blocks returned (cached first, then used, newest first), nothing else" line;
+               st := Some !f
+             | _ -> ())
           | "destroy" :: _, _ ->
             (match !st with
              | None -> ()
